@@ -525,6 +525,9 @@ func (fc *FuncCtx) copyOp(fr *Frame, st *State, call *ssa.CallCommon, pos token.
 	k := BVar("k", SInt)
 	st.assume(Forall([]*Term{k}, Eq(Select(nr, k),
 		Ite(And(Le(SOff(d), k), Lt(k, Add(SOff(d), cnt))), elemAt(Sub(k, SOff(d))), Select(drow, k)))))
+	// the same fact at the level of the destination view (gives element-read triggers)
+	k3 := BVar("k", SInt)
+	st.assume(Forall([]*Term{k3}, Implies(And(Le(IntLit(0), k3), Lt(k3, cnt)), Eq(At(nr, SOff(d), k3), elemAt(k3))), []*Term{At(nr, SOff(d), k3)}))
 	st.setH(h, Ite(Gt(cnt, IntLit(0)), Store(M, SBase(d), nr), M))
 	return Val{T: cnt}
 }
